@@ -127,6 +127,29 @@ Proof.
 Qed.
 Print Assumptions C16_knob_independence.
 
+(* ---- Scanner glue: which OFFSET/LIMIT reaches the plan --------------------------------------- *)
+
+(* Scanner::get_scan_range / create_plan stage 4: for every limit, offset, filter/ordering presence and
+   row list, the window the scanner applies is SQL's OFFSET/LIMIT - outside the class below.
+   (GlobalLimitExec is assumed to be firstn/skipn: DataFusion.) *)
+Theorem C16_scanner_limit_window : forall (A : Type) (limit offset : option N) (has_filter has_order : bool) (rows : list A),
+  Known_C16_limit_zero_ignored limit offset has_filter has_order = false ->
+  scanner_limit limit offset has_filter has_order rows = sql_limit limit offset rows.
+Proof. intros A limit offset hf ho rows H. exact (scanner_limit_spec limit offset hf ho rows H). Qed.
+Print Assumptions C16_scanner_limit_window.
+
+(* New finding: `limit(Some(0), None)` together with a filter (or an ordering) adds no limit node
+   (`limit.unwrap_or(0) > 0`), so LIMIT 0 returns every matching row. *)
+Theorem C16_limit_zero_ignored_refuted :
+  exists (limit offset : option N) (hf ho : bool) (rows : list N),
+    Known_C16_limit_zero_ignored limit offset hf ho = true
+    /\ scanner_limit limit offset hf ho rows <> sql_limit limit offset rows.
+Proof.
+  exists (Some 0), None, true, false, [1; 2; 3]. destruct scanner_limit_zero_refuted as (K & R & F).
+  split; [exact K|]. rewrite R, F. discriminate.
+Qed.
+Print Assumptions C16_limit_zero_ignored_refuted.
+
 (* ---- literal coercion -------------------------------------------------------------------- *)
 
 (* safe_coerce_scalar over the integer lattice: a literal v of integer type src coerced to integer
